@@ -53,6 +53,7 @@ def gen_case(g):
     poly = g.poly(shape=shape, names=names, kind="int" if kind == "bool" else kind, nterms=nterms,
                   maxexp=rng.choice([2, 3, 12]), via=rng.choice(["attrs", "attrs", "retain"]),
                   allow_views=False)
+    layout = rng.choice(["C", "C", "T", "F"]) if len(shape) >= 2 else "C"
     pool = {
         "int": [1, -1, 1, -1, 2, -3, 0, 7, 10, -25],
         "float": [1.0, -1.0, 0.5, -2.5, 1e-05, 1e+20, -1e-07, 3.0, 0.0, 123456.789],
@@ -76,7 +77,10 @@ def gen_case(g):
         # the text must denote the polynomial under the retain settings too
         options["retain_names"] = rng.random() < 0.4
         options["retain_coefficients"] = rng.random() < 0.5
-    return {"poly": poly, "options": options, "fn": fn}
+    case = {"poly": poly, "options": options, "fn": fn, "layout": layout}
+    if shape == () and kind in ("int", "float") and rng.random() < 0.4:
+        case["sympy_first"] = True  # to_sympy is called inside the option block before printing
+    return case
 
 
 def flatten(items):
@@ -118,7 +122,18 @@ def run_case(case, ctx):
     try:
         with warnings.catch_warnings():
             warnings.simplefilter("ignore")
+            layout = case.get("layout", "C")
+            if layout == "T" and poly.ndim >= 2:
+                # the same array held as a non-contiguous view / in Fortran order (ndarray
+                # methods, no numpoly function involved): printing follows the logical layout
+                poly = numpoly.transpose(poly).T
+            elif layout == "F" and poly.ndim >= 2:
+                poly = poly.copy(order="F")
+            facts["layout"] = layout
             with numpoly.global_options(**opts):
+                if case.get("sympy_first"):
+                    numpoly.to_sympy(poly)
+                    ctx.count("sympy_before_print")
                 text = str(poly) if fn == "str" else repr(poly)
     except Exception as err:  # pylint: disable=broad-except
         O.report_exception(ctx, facts, err, case, what=fn)
